@@ -422,10 +422,22 @@ func c02HistExec(received string, hist []c02Ev) (string, string, string) {
 		fmt.Fprintf(&b, "t%d:%v,%s,%v,%d|", i, t.sent, t.backend, t.final, t.nans)
 	}
 	p := w.S.Proxies()[0]
-	b.WriteString(sortedKeys(p.clientTransMgr.transports))
+	tk, ok1 := wbTransportKeys(p)
+	pins, _, ok2 := wbDialogTable(p)
+	rot, ok3 := wbRotation(w.S.RoundRobins()[0])
+	if !ok1 || !ok2 || !ok3 {
+		b.WriteString("wb:" + wbDump(p) + wbDump(w.S.RoundRobins()[0]))
+		return b.String(), "", ""
+	}
+	b.WriteString(strings.Join(tk, ","))
 	b.WriteString("|")
-	b.WriteString(sortedKeys(p.dialogBasedBackends.backends))
-	fmt.Fprintf(&b, "|rr=%d", w.S.RoundRobins()[0].index)
+	for i, pin := range pins {
+		if i > 0 {
+			b.WriteString(",")
+		}
+		b.WriteString(pin.Key)
+	}
+	fmt.Fprintf(&b, "|rr=%d", rot.Index)
 	return b.String(), "", ""
 }
 
